@@ -403,6 +403,7 @@ class ExprGen:
         if k < 0.8:
             return r.choice([t for _, t in self.R.M.LITERALS if "\n" not in t])
         return r.choice(["x_undefined", "int", "size", "type", "google.protobuf.Struct", ".y", "[]", "{}", "(1/0)",
+                         "class", "lambda", "None", "def", "is", "not", "yield", "package_", "functions", "get",
                          "google.protobuf.Struct{a: 1}", "google.protobuf.Int32Value{value: 2}", "dyn", "has"])
 
     def expr(self, d: int) -> str:
@@ -430,7 +431,7 @@ class ExprGen:
             return f"({e()}).{r.choice(self.fn)}({', '.join(e() for _ in range(n))})"
         if k in (8, 9):
             m = r.choice(MACROS)
-            v = r.choice(["i", "j", "v0"])
+            v = r.choice(["i", "j", "v0", "class", "lambda"])
             body = r.choice([v, e(), f"{v} {r.choice(list(REL))} {e()}", f"({e()}).{m}({v}, {v})"])
             return f"({e()}).{m}({v}, {body})"
         if k == 10:
@@ -485,7 +486,7 @@ def limit_exprs(rng: random.Random) -> List[str]:
     out.append("google.protobuf.Struct{" + ", ".join([f"f{i}: {i}" for i in range(R - 1)] + [f"g: {bad}"]) + "}")
     t = bad
     for i in range(T):
-        t = f"true ? {t} : {i}"
+        t = f"true ? ({t}) : {i}"
     out.append(t)
     t = bad
     for i in range(T):
@@ -534,6 +535,32 @@ def limit_exprs(rng: random.Random) -> List[str]:
     for i in range(N):
         t = f"-({t})" if i % 2 else f"!({t})"
     out.append(t)
+    # two recursive constructs per level, each N deep (needs the recursion limit Environment() sets: with
+    # Python's default of 1000 frames these raise RecursionError in the interpreter)
+    for leaf in (bad, "1"):
+        t = leaf
+        for _ in range(N):
+            t = f"size([{t}])"
+        out.append(t)
+        t = leaf
+        for _ in range(N):
+            t = f"[{t}].size()"
+        out.append(t)
+        t = leaf
+        for _ in range(N):
+            t = f"has({{'a': {t}}}.a)"
+        out.append(t)
+        t = leaf
+        for _ in range(N):
+            t = f"{{'k': [{t}]}}"
+        out.append(t)
+        t = leaf
+        for _ in range(N):
+            t = f"[{t}]"
+        t = t + "[0]" * N
+        for _ in range(N):
+            t = f"{{'a': {t}}}"
+        out.append(t + ".a" * N)
     out.append("!" * R + "true")
     out.append("-" * R + "1")
     return out
